@@ -1,17 +1,19 @@
+\* quick-tier exhaustive configuration (measured: 10 237 distinct / 284 689 generated states);
+\* families/mempool.py writes the same text with the invariants of the property under check
 SPECIFICATION Spec
 CONSTANTS
-  Ent = {1, 2, 3, 4, 5}
-  Tab <- TabU5
+  Ent = {1, 2, 3, 4, 5, 6}
+  Tab <- TabU6
   Senders <- SendersABX
-  Cap = 2
-  PerSender = 1
-  MaxLast = 1
+  Defects <- TwoDefects
+  Cap = 3
+  PerSender = 2
+  MaxLast = 2
   MaxH = 2
   MaxNow = 1
   MaxBlk = 1
   LevelFee = TRUE
-  TierAt = 1
-  Defects <- TwoDefects
+  TierAt = 2
   MaxRm = 1
   QueryOn = FALSE
   NodeRig = FALSE
